@@ -54,7 +54,7 @@ func detMarshal(m proto.Message, op detOp) (res string) {
 func runDetMarshal(c *simrun.Ctx) *simrun.Violation {
 	t := c.T
 	st := c.Stats
-	proto0 := corpus[t.Draw("type", len(corpus))]
+	proto0 := pickType(t)
 	mt := proto0.ProtoReflect().Type()
 	md := mt.Descriptor()
 	cfg := simval.GenCfg{MaxDepth: 1 + t.Draw("maxdepth", 3), MaxFields: 1 + t.Draw("maxfields", 6), MaxMapEntries: 2 + t.Draw("maxentries", 8), MaxListLen: 1 + t.Draw("maxlist", 3), AnyTargets: anyTargets()}
